@@ -27,6 +27,11 @@ let zbytes_of_hex h = if h = "-" then [] else
   List.init (String.length h / 2) (fun i -> match n_of_int (int_of_string ("0x" ^ String.sub h (2*i) 2)) with N0 -> Z0 | Npos p -> Zpos p)
 let hex_of_zbytes bs = if bs = [] then "-" else
   String.concat "" (List.map (fun b -> Printf.sprintf "%02x" (match b with Z0 -> 0 | Zpos p -> int_of_pos p | Zneg _ -> 0)) bs)
+let rec int_of_nat = function O -> 0 | S n -> 1 + int_of_nat n
+let digest_bytes (bs:n list) : string =
+  let b = Buffer.create 1024 in
+  List.iter (fun x -> Buffer.add_char b (Char.chr (int_of_n x))) bs;
+  Printf.sprintf "%d %s" (Buffer.length b) (Digest.to_hex (Digest.string (Buffer.contents b)))
 let rec nat_of_int n = if n <= 0 then O else S (nat_of_int (n-1))
 let bytes_of_hex h = if h = "-" then [] else
   List.init (String.length h / 2) (fun i -> n_of_int (int_of_string ("0x" ^ String.sub h (2*i) 2)))
@@ -90,6 +95,16 @@ let run_case (line:string) : string =
      | R200 b -> "200 " ^ hex_of_bytes b
      | R204 -> "204"
      | R500 -> "500")
+  | "buildrl_gz" | "optdir_gz" -> "ok"
+  | "buildrl" ->
+    let leaf = tn ts in let es = tents ts in
+    let ((root, leaves), n) = build_roots_leaves serialize_entries es leaf in
+    Printf.sprintf "ok %d %s %s" (int_of_nat n) (digest_bytes root) (digest_bytes leaves)
+  | "optdir" ->
+    let target = tn ts in let es = tents ts in
+    (match optimize_small serialize_entries es target with
+     | Some ((root, leaves), n) -> Printf.sprintf "ok %d %s %s" (int_of_nat n) (digest_bytes root) (digest_bytes leaves)
+     | None -> "outoffuel")
   | op -> "unknown-op " ^ op
 
 let () =
